@@ -413,11 +413,17 @@ Fixpoint trace (hashf : pdef -> hash) (w : world) (l : list op) :=
   | o :: t => let '(w1, ob) := step hashf w o in (obs_code ob, view w1) :: trace hashf w1 t
   end.
 
-(** compact trace for the tie: CONFIG/POOLS only after reloads would lose nothing, but sizes are small *)
+(** compact trace for the tie: CONFIG/POOLS are printed after reloads only *)
 Fixpoint trace2 (hashf : pdef -> hash) (w : world) (l : list op) :=
   match l with
   | [] => []
-  | o :: t => let '(w1, ob) := step hashf w o in (obs_code ob, view w1, view_objs w1) :: trace2 hashf w1 t
+  | o :: t =>
+      let '(w1, ob) := step hashf w o in
+      let v := match o with
+               | OReload _ => view w1
+               | _ => (0, [], [], map view_server (servers w1))   (* client steps do not touch CONFIG/POOLS (client_step_store) *)
+               end in
+      (obs_code ob, v, view_objs w1) :: trace2 hashf w1 t
   end.
 
 (** build outcomes as data: the listed (pool, user) pairs fail / panic, all others are built *)
